@@ -21,6 +21,8 @@ EXPLANATION = (
 
 
 def run(ctx: Ctx) -> None:
+    from ..rules import order as _order_seq
+    _order_seq.rule_sequence_source(ctx, [("graphiq/circuit/circuit_dag.py", "CircuitDAG._slim_seq")])  # the noisy copy (assign_noise) replays the operations in application order
     solvers.rule_emitter_cap(ctx)
     from .c12 import rule_reach_whole_dag
     rule_reach_whole_dag(ctx)
@@ -53,6 +55,7 @@ def run(ctx: Ctx) -> None:
 
 
 KNOCKOUTS = [
+    Knockout("fixed-label-after-insertion", TRS, sub_nth('        gate.add_labels("Fixed")\n        circuit.insert_at(gate, [edge0, edge1])\n', '        circuit.insert_at(gate, [edge0, edge1])\n        gate.add_labels("Fixed")\n', 0), "typestate.fixed", "not labelled Fixed"),
     Knockout("measurement-position-photon-filter-or", EVO, sub_once('            if type(circuit.dag.nodes[edge[1]]["op"]) is not ops.MeasurementCNOTandReset\n            and type(circuit.dag.nodes[edge[0]]["op"]) is not ops.Input\n', '            if type(circuit.dag.nodes[edge[1]]["op"]) is not ops.MeasurementCNOTandReset\n            or type(circuit.dag.nodes[edge[0]]["op"]) is not ops.Input\n'), "filter.literals", "_select_possible_measurement_position"),
     Knockout("cnot-position-output-polarity", EVO, sub_nth('if type(circuit.dag.nodes[edge[1]]["op"]) is not ops.Output', 'if type(circuit.dag.nodes[edge[1]]["op"]) is ops.Output', 0), "filter.literals", "admitted"),
     Knockout("measure-reset-inside-emission-loop", EVO, sub_once("            op.add_labels(\"Fixed\")\n\n            circuit.add(op)\n\n        # initialize all emitter measurement and reset operations\n", "            op.add_labels(\"Fixed\")\n\n            circuit.add(op)\n            if i == n_photon - 1 or emission_assignment[i] not in emission_assignment[i + 1:]:\n                mr = ops.MeasurementCNOTandReset(control=emission_assignment[i], control_type=\"e\", target=measurement_assignment[emission_assignment[i]], target_type=\"p\")\n                mr.add_labels(\"Fixed\")\n                circuit.add(mr)\n\n        # initialize all emitter measurement and reset operations\n"), "order.emission-first", "initialization"),
